@@ -293,7 +293,7 @@ package db
 //@   ghost-exit rb = old(rb)
 //@   props C04 C12
 //@   uses table_tree table_sorted
-//@   modifies * -M:S_db_KeyCol -M:S_sqlittle_columnIndex
+//@   modifies * -M:S_db_KeyCol -M:S_sqlittle_columnIndex rowid_hit
 //@   requires t != nil && tree_of(t.root) == t.root
 //@   ghost-entry cur_tree = t.root
 //@   ghost-entry searching = true
